@@ -5,6 +5,7 @@ From Grex Require Import Base.Str Model.Config Model.Cluster Model.Dfa Model.Exp
   Model.Pipeline.
 From Grex Require Import Proofs.PrintShape Proofs.EscapeProps Proofs.PropsGlue.
 From Grex Require Proofs.SurrogateDecode Proofs.SurrogateRepair Proofs.SurrogateEq Proofs.PrintParseDefs Proofs.PrintParseNum Proofs.Lang.
+From Grex Require Proofs.SurrogateDecodeX Proofs.PrintParseXTok.
 From Grex Require Engine.Syntax Engine.Parse Engine.Sem.
 Local Open Scope N_scope.
 
@@ -70,6 +71,23 @@ Theorem C11_repair_same_language : forall (lit_den cls_den : cp -> cp -> Prop) (
     /\ (forall s, Sem.L_rast lit_den cls_den r1 s <-> Sem.L_rast lit_den cls_den r2 s).
 Proof. exact SurrogateDecode.repair_same_language. Qed.
 
+(* the same in verbose mode: the re-paired (?x) pattern is accepted under the x flag and denotes
+   the language of the expression, i.e. of the verbose build without surrogate pairs *)
+Theorem C11_repair_language_verbose : forall (lit_den cls_den : cp -> cp -> Prop) (isd is_ws : cp -> bool) (c : cfg) (e : expr),
+  f_verbose c = true -> PrintParseDefs.wf_print e -> PrintParseXTok.ws_x is_ws ->
+  exists fl r, Parse.parse is_ws (SurrogateRepair.repair (regexp_str isd (SurrogateDecode.sur c) e)) = Some (fl, r)
+    /\ Syntax.fl_i fl = f_ci c /\ Syntax.fl_x fl = true
+    /\ (forall s, Sem.L_rast lit_den cls_den r s <-> Lang.L_expr lit_den cls_den e s).
+Proof. exact SurrogateDecodeX.repair_parse_verbose. Qed.
+
+Theorem C11_repair_same_language_verbose : forall (lit_den cls_den : cp -> cp -> Prop) (isd is_ws : cp -> bool) (c : cfg) (e : expr),
+  f_verbose c = true -> PrintParseDefs.wf_print e -> PrintParseXTok.ws_x is_ws ->
+  exists fl r1 r2,
+    Parse.parse is_ws (SurrogateRepair.repair (regexp_str isd (SurrogateDecode.sur c) e)) = Some (fl, r1)
+    /\ Parse.parse is_ws (regexp_str isd (SurrogateDecode.nosur c) e) = Some (fl, r2)
+    /\ (forall s, Sem.L_rast lit_den cls_den r1 s <-> Sem.L_rast lit_den cls_den r2 s).
+Proof. exact SurrogateDecodeX.repair_same_language_verbose. Qed.
+
 Theorem C11_repair_identity_without_surrogates : forall (isd : cp -> bool) (c : cfg) (gap : Prop) (e : expr),
   f_verbose c = false -> PrintParseDefs.wf_print_gen gap e ->
   SurrogateRepair.repair (regexp_str isd (SurrogateDecode.nosur c) e) = regexp_str isd (SurrogateDecode.nosur c) e.
@@ -85,4 +103,6 @@ Print Assumptions C11_hex_shape.
 Print Assumptions C11_decode.
 Print Assumptions C11_repair_language.
 Print Assumptions C11_repair_same_language.
+Print Assumptions C11_repair_language_verbose.
+Print Assumptions C11_repair_same_language_verbose.
 Print Assumptions C11_repair_identity_without_surrogates.
